@@ -399,6 +399,13 @@ def count_cases(ctx: Ctx, traces: list[dict]) -> None:
             i = j
 
 
+def windowed(procs, fn, args: list, window: int) -> Iterator[list[dict]]:
+    """Results of fn over args, in order, produced by the worker processes window by window (bounded memory: the workers
+    do not run ahead of validation by more than one window)."""
+    for i in range(0, len(args), window):
+        yield from procs.map(fn, args[i:i + window], chunksize=max(1, min(8, window // 40)))
+
+
 class _BatchCtx:
     """What tracekit.validate_traces needs from a context, collected per batch and merged by the main thread."""
 
@@ -515,7 +522,7 @@ def run(ctx: Ctx) -> None:
                 raise MachineryError(f"{what}: {len(cases)} cases printed for {r.distinct} states")
             args = [(ncases + i, c, ctx.seed, scheme) for i, c in enumerate(cases)]
             ncases += len(cases)
-            stats[what] = stream_validate(ctx, "u" + what.split("=")[1].replace(" ", ""), procs.imap(_w_case, args, chunksize=8),
+            stats[what] = stream_validate(ctx, "u" + what.split("=")[1].replace(" ", ""), windowed(procs, _w_case, args, 500),
                                           batch=480 if scheme == "full" else 6000, chunk=60 if scheme == "full" else 750,
                                           invs=TRACE_INVS if scheme == "full" else TRACE_INVS_LIGHT, keep=kept, keep_n=400)
         mid = kept[len(kept) // 2]
@@ -526,7 +533,7 @@ def run(ctx: Ctx) -> None:
 
         nrand = 150 if quick else 2500
         rkept: list[dict] = []
-        stats["random"] = stream_validate(ctx, "rand", procs.imap(_w_random, [(i, ctx.seed) for i in range(nrand)], chunksize=10),
+        stats["random"] = stream_validate(ctx, "rand", windowed(procs, _w_random, [(i, ctx.seed) for i in range(nrand)], 500),
                                           batch=150 if quick else 1250, chunk=40 if quick else 160, invs=TRACE_INVS,
                                           keep=rkept, keep_n=1)
         ctx.sample({"random_desc": rkept[0]["desc"], "events": rkept[0]["ev"][:12]})
